@@ -189,9 +189,75 @@ func genC17Memo(r *Rng) *World {
 	return w
 }
 
+// genC17Stale: whatever the router remembers about a pattern it has validated must die with the route,
+// by every way a route can die.  Register P (and an unrelated Q), remove P by one of the removal
+// paths, remove Q, register P under other parameter names, then P itself again: the renamed twin is
+// the only other route, so the call must be rejected.
+func genC17Stale(r *Rng) *World {
+	w := &World{}
+	w.Opts = RouterOpts{Name: "r", Interceptors: GenICs(r), Trace: r.Pct(30), Lock: r.Pct(30)}
+	w.Pool = genPoolCfg(r)
+	tok := pick(r, usable([]string{`{id}`, `{name}`, `{id:\d+}`, `{w:word}`, `{-ign}`}, w.Opts.Interceptors))
+	root := pick(r, []string{"/p/", "/pages/", "/u/v/"})
+	p := root + tok + pick(r, []string{"", "/log", ".html", "/a/{sub}"})
+	q := pick(r, []string{"/q", "/zz/{x}", "/p", "/u"})
+	twin := renamePattern(r, p, w.Opts.Interceptors)
+	if twin == "" {
+		return genC17Split(r)
+	}
+	w.Ops = []Op{{K: "handle", Pattern: p, HID: 101, Methods: pick(r, [][]string{{"GET"}, {"GET", "POST"}, {"DELETE"}})}}
+	if r.Pct(70) {
+		w.Ops = append(w.Ops, Op{K: "handle", Pattern: q, HID: 102, Methods: []string{"GET"}})
+	}
+	if r.Pct(40) {
+		w.Ops = append(w.Ops, Op{K: "handle", Pattern: p, HID: 103, Methods: []string{"PUT"}}) // a second call for the same pattern
+	}
+	switch r.Intn(6) {
+	case 0:
+		w.Ops = append(w.Ops, Op{K: "remove", Pattern: p})
+	case 1:
+		for _, m := range []string{"GET", "POST", "DELETE", "PUT"} {
+			w.Ops = append(w.Ops, Op{K: "remove", Pattern: p, Methods: []string{m}})
+		}
+	case 2:
+		w.Ops = append(w.Ops, Op{K: "pclean", Pattern: root[:r.Range(2, len(root))]})
+	case 3:
+		w.Ops = append(w.Ops, Op{K: "pclean", Pattern: p[:r.Range(len(root), len(p))]})
+	case 4:
+		w.Ops = append(w.Ops, Op{K: "rclean", Pattern: p})
+	case 5:
+		w.Ops = append(w.Ops, Op{K: "clean"})
+	}
+	if r.Pct(80) {
+		w.Ops = append(w.Ops, Op{K: "remove", Pattern: q})
+	}
+	w.Ops = append(w.Ops, Op{K: "handle", Pattern: twin, HID: 104, Methods: []string{"GET"}})
+	// keep only what a model accepts, then the final call if the model says it must be rejected
+	m := NewModel(w.Opts)
+	var keep []Op
+	for _, op := range w.Ops {
+		if op.K == "handle" {
+			if v, _ := m.HandleVerdict(op.Pattern, op.Methods); v != 1 {
+				continue
+			}
+		}
+		applyModel(m, &op)
+		keep = append(keep, op)
+	}
+	w.Ops = keep
+	last := Op{K: "badhandle", Pattern: p, HID: 5001, Methods: []string{pick(r, []string{"POST", "GET", "PATCH"})}}
+	if v, _ := m.HandleVerdict(last.Pattern, last.Methods); v == -1 {
+		w.Ops = append(w.Ops, last)
+	}
+	return w
+}
+
 func genC17(r *Rng, idx int, tier string) *World {
 	if r.Pct(8) {
 		return genC17Split(r)
+	}
+	if r.Pct(6) {
+		return genC17Stale(r)
 	}
 	if r.Pct(5) {
 		return genC17Memo(r)
@@ -295,7 +361,7 @@ func genC17(r *Rng, idx int, tier string) *World {
 			bad.Methods = insertAt(freshList(bad.Pattern), pick(r, reserved))
 		case 2: // unknown method
 			bad.Pattern = somePattern()
-			bad.Methods = insertAt(freshList(bad.Pattern), pick(r, []string{"BOGUS", "get", "", "PROPFIND", "Get"}))
+			bad.Methods = insertAt(freshList(bad.Pattern), pick(r, []string{"BOGUS", "get", "", "PROPFIND", "Get", nearMethod(r), nearMethod(r)}))
 		case 3: // listed twice
 			bad.Pattern = somePattern()
 			l := freshList(bad.Pattern)
@@ -345,6 +411,37 @@ func genC17(r *Rng, idx int, tier string) *World {
 	}
 	w.Ops = ops
 	return w
+}
+
+// nearMethod returns a method name that is not supported but close to one that is: one byte in another
+// case or replaced, one byte more or less, title case - same length and first byte as a supported name
+// more often than not.
+func nearMethod(r *Rng) string {
+	supported := []string{"GET", "POST", "DELETE", "PUT", "PATCH", "CONNECT", "TRACE", "HEAD", "OPTIONS"}
+	for {
+		b := []byte(pick(r, supported))
+		switch r.Intn(6) {
+		case 0:
+			i := r.Intn(len(b))
+			b[i] += 'a' - 'A'
+		case 1:
+			i := 1 + r.Intn(len(b)-1)
+			b[i] = byte('A' + r.Intn(26))
+		case 2:
+			b = append(b, pick(r, []string{"S", " ", "E", "\t"})...)
+		case 3:
+			b = b[:len(b)-1]
+		case 4:
+			for i := 1; i < len(b); i++ {
+				b[i] += 'a' - 'A'
+			}
+		case 5:
+			b = []byte(pick(r, []string{"PURGE", "LINK", "CHECKIN", "M-SEARCH", "PROPFIND", " GET", "GET,POST"}))
+		}
+		if !contains(supported, string(b)) {
+			return string(b)
+		}
+	}
 }
 
 // renamePattern returns the pattern with every parameter renamed (sometimes with
@@ -586,6 +683,9 @@ func genC08(r *Rng, idx int, tier string) *World {
 				reserved = append(reserved, "TRACE")
 			}
 			bad := []string{pick(r, reserved)}
+			if r.Pct(35) {
+				bad = []string{nearMethod(r)}
+			}
 			if r.Pct(40) { // a list as long as Any's, GET first, one reserved or unknown entry
 				bad = []string{"GET", "POST", "PUT", "PATCH", "DELETE"}
 				bad = bad[:r.Range(3, 5)]
@@ -797,24 +897,48 @@ func genC18(r *Rng, idx int, tier string) *World {
 	return w
 }
 
-// Trace helper on the simulated wire.
+// Trace helper on the simulated wire: one to three calls in a row on the same process state; a call
+// may meet a connection whose first Write fails (error, or the panic net/http uses for a dead peer).
+// Whatever the helper keeps between calls must not show in the next dump.
 func genTraceIO(r *Rng) *World {
 	w := &World{Variant: "io"}
-	hdrs := map[string]string{}
-	for i := r.Intn(4); i > 0; i-- {
-		hdrs[pick(r, []string{"X-A", "Accept", "X-Html", "User-Agent", "X-Q"})] = pick(r, []string{"1", "<b>x</b>", "a&b", `"q"`, "it's", "text/html; q=0.8", "plain"})
+	n := 1
+	if r.Pct(45) {
+		n = r.Range(2, 3)
 	}
-	body := ""
-	for i := r.Intn(5); i > 0; i-- {
-		body += pick(r, []string{"hello", "<script>", "&amp;", "\"", "'", "x=1&y=2", "\r\n", "日本", "\x00\xff", ">"})
+	for c := 0; c < n; c++ {
+		hdrs := map[string]string{}
+		for i := r.Intn(4); i > 0; i-- {
+			hdrs[pick(r, []string{"X-A", "Accept", "X-Html", "User-Agent", "X-Q"})] = pick(r, []string{"1", "<b>x</b>", "a&b", `"q"`, "it's", "text/html; q=0.8", "plain"})
+		}
+		body := ""
+		for i := r.Intn(5); i > 0; i-- {
+			body += pick(r, []string{"hello", "<script>", "&amp;", "\"", "'", "x=1&y=2", "\r\n", "日本", "\x00\xff", ">"})
+		}
+		op := Op{K: "tracehelper", Req: &Req{Method: pick(r, []string{"TRACE", "TRACE", "GET", "POST"}), Path: pick(r, []string{"/", "/a/<b>", "/x?y", "*", "/p&q"}), Host: pick(r, []string{"example.com", "", "h<o>st"}), Hdr: hdrs}, Args: []string{body}, B: r.Pct(60), N: int(r.U64() % 1000000)}
+		if c < n-1 && r.Pct(70) {
+			op.Name = pick(r, []string{"panic", "err"}) // this call's connection fails on its first Write
+		}
+		w.Ops = append(w.Ops, op)
 	}
-	w.Ops = []Op{{K: "tracehelper", Req: &Req{Method: pick(r, []string{"TRACE", "TRACE", "GET", "POST"}), Path: pick(r, []string{"/", "/a/<b>", "/x?y", "*", "/p&q"}), Host: pick(r, []string{"example.com", "", "h<o>st"}), Hdr: hdrs}, Args: []string{body}, B: r.Pct(60), N: int(r.U64() % 1000000)}}
 	return w
 }
 
 func execTraceIO(w *World, st *Stats) (*Violation, RunInfo) {
-	op := &w.Ops[0]
-	info := RunInfo{Shape: worldShape(w), Nontrivial: true, Events: 1}
+	info := RunInfo{Shape: worldShape(w), Nontrivial: true, Events: int64(len(w.Ops))}
+	for i := range w.Ops {
+		v, h := execTraceCall(&w.Ops[i], st)
+		info.Hash = hashU(info.Hash, h)
+		if v != nil {
+			v.Step = i
+			return v, info
+		}
+	}
+	return nil, info
+}
+
+func execTraceCall(op *Op, st *Stats) (*Violation, uint64) {
+	var info struct{ Hash uint64 }
 	mk := func(oracle, sig, detail string) *Violation {
 		return &Violation{Prop: "C18", Oracle: oracle, Sig: sig, Detail: fmt.Sprintf("Trace(w, %s body=%q withBody=%v): %s", op.Req, op.Args[0], op.B, detail)}
 	}
@@ -828,6 +952,10 @@ func execTraceIO(w *World, st *Stats) (*Violation, RunInfo) {
 	}
 	conn := NewConn()
 	conn.KeepBody = true
+	if op.Name == "panic" || op.Name == "err" {
+		conn.FailWrite, conn.FailMode = 1, op.Name
+		st.C("trace_write_fault_" + op.Name)
+	}
 	var pan any
 	func() {
 		defer func() { pan = recover() }()
@@ -837,41 +965,44 @@ func execTraceIO(w *World, st *Stats) (*Violation, RunInfo) {
 	conn.Finish()
 	st.CN("short_read", int64(sb.Short+sb.Zero))
 	info.Hash = hashStr(hashStr(uint64(conn.Status), string(conn.Body)), headerKey(conn.Wire, ""))
-	if pan != nil || !helperWrote {
-		return nil, info // a panic is C05's subject; a helper that reported an error wrote nothing
+	if pan != nil || !helperWrote || conn.FailWrite > 0 {
+		return nil, info.Hash // a panic is C05's subject; a helper that reported an error wrote nothing; a failed connection shows nothing
 	}
 	if conn.Status != 200 {
-		return mk("trace-helper-status", "status", fmt.Sprintf("status %d", conn.Status)), info
+		return mk("trace-helper-status", "status", fmt.Sprintf("status %d", conn.Status)), info.Hash
 	}
 	if ct := conn.Wire.Get("Content-Type"); ct != "message/http" {
-		return mk("trace-helper-content-type", "content-type-not-sent", fmt.Sprintf("Content-Type on the wire is %q (live map: %q)", ct, conn.hdr.Get("Content-Type"))), info
+		return mk("trace-helper-content-type", "content-type-not-sent", fmt.Sprintf("Content-Type on the wire is %q (live map: %q)", ct, conn.hdr.Get("Content-Type"))), info.Hash
 	}
 	raw := string(conn.Body)
 	for i := 0; i < len(raw); i++ {
 		switch raw[i] {
 		case '<', '>', '"', '\'':
-			return mk("trace-helper-escaped", "unescaped-byte", fmt.Sprintf("body contains an unescaped %q", raw[i])), info
+			return mk("trace-helper-escaped", "unescaped-byte", fmt.Sprintf("body contains an unescaped %q", raw[i])), info.Hash
 		}
 	}
 	text := html.UnescapeString(raw)
 	line := fmt.Sprintf("%s %s HTTP/1.1", op.Req.Method, op.Req.Path)
+	if !strings.HasPrefix(text, line) {
+		return mk("trace-helper-dump", "request-line-not-first", fmt.Sprintf("dump %q does not start with the request line %q", text, line)), info.Hash
+	}
 	if !strings.Contains(text, line) {
-		return mk("trace-helper-dump", "request-line-missing", fmt.Sprintf("dump %q lacks request line %q", text, line)), info
+		return mk("trace-helper-dump", "request-line-missing", fmt.Sprintf("dump %q lacks request line %q", text, line)), info.Hash
 	}
 	for k, v := range op.Req.Hdr {
 		if !strings.Contains(text, http.CanonicalHeaderKey(k)+": "+v) {
-			return mk("trace-helper-dump", "header-missing", fmt.Sprintf("dump %q lacks header %s: %s", text, k, v)), info
+			return mk("trace-helper-dump", "header-missing", fmt.Sprintf("dump %q lacks header %s: %s", text, k, v)), info.Hash
 		}
 	}
 	body := op.Args[0]
 	if i := strings.Index(text, "\r\n\r\n"); i < 0 {
-		return mk("trace-helper-dump", "no-header-end", fmt.Sprintf("dump %q has no blank line after the headers", text)), info
+		return mk("trace-helper-dump", "no-header-end", fmt.Sprintf("dump %q has no blank line after the headers", text)), info.Hash
 	} else if after := text[i+4:]; op.B && after != body {
-		return mk("trace-helper-body", "body-missing", fmt.Sprintf("body requested: dump carries %q after the headers, request body was %q", after, body)), info
+		return mk("trace-helper-body", "body-missing", fmt.Sprintf("body requested: dump carries %q after the headers, request body was %q", after, body)), info.Hash
 	} else if !op.B && after != "" {
-		return mk("trace-helper-body", "body-included", fmt.Sprintf("body not requested but the dump carries %q after the headers", after)), info
+		return mk("trace-helper-body", "body-included", fmt.Sprintf("body not requested but the dump carries %q after the headers", after)), info.Hash
 	}
-	return nil, info
+	return nil, info.Hash
 }
 
 func init() {
